@@ -11,7 +11,8 @@ LEVEL_TEXT = ("static: decides on every CFG path, including OOM/failure unwinds,
               "getaddrinfo sub-request counter matches the lookups started; (DETACH) that a wire query is unreachable from the indexes a re-entrant "
               "request/cancel can walk when its callback runs; (HELD) that no query/connection/list-node pointer is used after a call that may run a "
               "user completion callback unless re-derived or pinned; (ENDER) who may invoke and free wire queries. Re-entrant API set assumed inside "
-              "completion callbacks: new requests and ares_cancel.")
+              "completion callbacks: new requests and ares_cancel."
+              " Also decides that no record type parks a query/connection pointer outside the indexes the release path clears, and that the deferred re-send looks its query up by id again.")
 LEVEL_NOTE = ("trusts clang CFG + extractor; indirect calls are resolved by slot (completion-typed pointers) and per container instance; "
               "effect preconditions and pins are frozen tables with one-line reasons (EFFECT_PRECONDITIONS, PINNED)")
 DESIGN_REF = "DESIGN.md §6/C01"
